@@ -374,6 +374,7 @@ func (rt *Runtime) mount() {
 			})
 		})
 	}
+	mountStateful(rm) // -mwstate: the shared-state middlewares (mwstate.go)
 	names := make([]string, 0, len(rt.services))
 	for n := range rt.services {
 		names = append(names, n)
